@@ -17,12 +17,24 @@ RULE = ("pd-shapes: every (start month/day, end month/day) of seed-rotated year 
         "first operand (region of the repaired finding rs-second-operand-subclass, its witness first); cross-zone pairs (different fixed offsets incl. :30/:45, month-boundary shifts); "
         "pendulum Interval objects (naive, UTC, fixed, Date, differently named zones) with a + (b - a), add(**components), the reversed interval, "
         "in_months; interval-second-occurrence: Intervals from a UTC / fixed-offset start to an end that is the SECOND occurrence of a repeated wall time in a "
-        "DST zone (6 overlaps x 19 spans x 2 start zones; the region of the repaired finding interval-init-drops-fold, listed for C18); direct add()/add_duration with random signed components. Each pd case calls the backend helper in both directions and the "
+        "DST zone (6 overlaps x 19 spans x 2 start zones; the region of the repaired finding interval-init-drops-fold, listed for C18); direct add()/add_duration with random signed components. "
+        "HISTORIES (fn hist: one case = a list of constructions performed in order in ONE process, so a replay is self-contained; every step is judged by the oracle on "
+        "its OWN operands, two steps with the same operands must report the same, and the whole history is run in the Gallina model Model/PdHistory.run_history): "
+        "history-zone-twins (~500: the same two instants, within hours of a month boundary, written in 2-5 zones in seeded order — UTC, fixed offsets incl. :30/:45, named "
+        "zones with and without DST, both ends on the same offset — as Intervals and as direct calls of pendulum.helpers.precise_diff, sometimes with a "
+        "differently-named-zones pair in between; the witness UTC then +05:00, -03:30, Asia/Tokyo first), history-fold-twins (120: 6 overlaps x 10 spans x 2 start "
+        "zones: one start and the FIRST and the SECOND occurrence of a repeated wall time as end, i.e. equal tzinfo object and wall fields, fold 0 / 1, in either order), "
+        "history-wall-twins (250: equal wall fields read as naive / UTC / +05:00 / -03:30 / Asia/Tokyo / mixed zones, and as plain Dates when at midnight), "
+        "history-same-elapsed / history-shared-endpoint (250: equal elapsed time from 3-5 different start days; one start with several ends; one end with several starts); "
+        "the first step of every history is repeated at its end. "
+        "Each pd case calls the backend helper in both directions and the "
         "pure-Python helper as reference. A case is non-trivial when the two operands differ.")
 EXHAUSTIVE = {"quick": False, "thorough": False}
 TRUSTED = ["rustc/pyo3: rust/src/python/helpers.rs::precise_diff is modelled by hand in coq/Model/RustPreciseDiff.v",
            "CPython datetime comparison/subtraction/replace/+timedelta are named primitives in coq/Model/PdBase.v on Spec/Cal.v, validated by the correspondence",
-           "Interval glue (component properties, DateTime.add for fixed offsets) is modelled by hand in coq/Model/PdInterval.v"]
+           "Interval glue (component properties, DateTime.add for fixed offsets) is modelled by hand in coq/Model/PdInterval.v",
+           "a process history is modelled as a straight-line program over immutable operands (coq/Model/PdHistory.run_history = map eval_step): that CPython performs "
+           "the constructions of a history in order is trusted; that nothing else is carried from one construction to the next is CHECKED by the history-* streams on every run"]
 ASSUMPTIONS = ["the elapsed Duration of an Interval is modelled exactly; the implementation goes through float total_seconds(), exact below 2^33 s "
                "(longer spans: only the PreciseDiff-derived components are compared and the float-derived ones are checked by the oracle)",
                "operands whose UTC instant is outside years 1..9999 are outside the model (CPython raises OverflowError when it shifts them)",
@@ -1046,10 +1058,17 @@ LEVEL_TEXT = ("Machine-checked Coq theorems about the pure-Python precise_diff (
               "with pendulum.DateTime operands are an ordinary stream; the remaining Rust-only cross-zone defect is characterised by a "
               "refuted theorem. Finding interval-init-drops-fold (listed for C18: Interval.__init__ rebuilt the natives it hands to precise_diff without fold=) is "
               "repaired: the Interval model, which hands precise_diff each operand with its own offset, is now what the code does for either occurrence of a "
-              "repeated wall time, and intervals ending on a second occurrence are an ordinary stream (interval-second-occurrence).")
+              "repeated wall time, and intervals ending on a second occurrence are an ordinary stream (interval-second-occurrence). "
+              "Process histories (Model/PdHistory.v, Proofs/C06History.v): components_independent_of_history / history_prefix_stable (what an Interval reports is the same at every "
+              "position of every history of the model, which the history-* streams compare step by step with one interpreter building the same Intervals in order); the counter-model "
+              "run_memo (a memo in front of precise_diff) is proved transparent when its key separates all twelve operand fields (memo_with_faithful_key_is_transparent, "
+              "memo_keyed_by_all_fields_is_transparent) and NOT transparent when looked up with CPython's ==/hash (memo_keyed_by_equality_refuted: the same two instants in UTC and at "
+              "+05:00; memo_keyed_by_equality_order_dependent; memo_keyed_by_equality_conflates_folds: fold 0 / 1 of a repeated wall time).")
 DESIGN_REF = "DESIGN.md section 4 C06"
 LEVEL_NOTE = ("Trusted: Coq kernel+VM, the translator, the primitives of Model/PdBase.v as a model of CPython datetime, the hand models of the Rust helper "
-              "and of the Interval glue (validated by correspondence every run), extraction+driver (cross-checked with vm_compute).")
+              "and of the Interval glue (validated by correspondence every run), extraction+driver (cross-checked with vm_compute). "
+              "Process histories: the model run_history is stateless by construction and is compared with one interpreter performing the same constructions in order (history-* "
+              "streams, inside the model: dispatch entries py_history / rs_history; no oracle-only stream); the oracle judges every step on its own operands.")
 TECHNIQUE = ("Coq proof (lia over the borrow chain and the month-length branch; rebuild by calendar lemmas over Spec/Cal: ymd2ord linear in the day, "
              "one-month step) over translated code; differential correspondence; stdlib oracle")
 
